@@ -72,6 +72,39 @@ def make_case(rng, npk, faults, cfault):
         files[name] = text
     return {"files": files, "dirs": dirs, "faults": list(faults), "cfault": cfault}
 
+V2_FAULTS = ["go_no_out", "kotlin_no_out", "kotlin_no_package", "no_engine", "bad_engine", "bad_override", "bad_query"]
+
+
+def make_v2_case(rng, blocks):
+    """version-2 configuration; blocks = [(targets, fault)], targets a non-empty sub-list of ["go", "kotlin"] in the order
+    they are written in the block's gen section.  A fault in ANY target of ANY block must stop the whole run."""
+    sql, files, dirs, per_target, cfault = [], {}, [], [], "ok"
+    for i, (targets, fault) in enumerate(blocks):
+        p, fs, ds = make_package(i, "bad_query" if fault == "bad_query" else "none")
+        files.update(fs)
+        gen = {}
+        for t in targets:
+            gen[t] = {"out": "out/p%d%s" % (i, t), "package": ("db%d" % i) if t == "go" else "com.example.p%d" % i}
+        blk = {"engine": "postgresql", "schema": p["schema"], "queries": p["queries"], "gen": gen}
+        if fault == "go_no_out" and "go" in gen:
+            del gen["go"]["out"]; cfault = "v2:" + fault
+        elif fault == "kotlin_no_out" and "kotlin" in gen:
+            del gen["kotlin"]["out"]; cfault = "v2:" + fault
+        elif fault == "kotlin_no_package" and "kotlin" in gen:
+            del gen["kotlin"]["package"]; cfault = "v2:" + fault
+        elif fault == "no_engine":
+            del blk["engine"]; cfault = "v2:" + fault
+        elif fault == "bad_engine":
+            blk["engine"] = "oracle"; cfault = "v2:" + fault
+        elif fault == "bad_override" and "go" in gen:
+            gen["go"]["overrides"] = [{"go_type": "example.com/x.T", "db_type": "uuid", "column": "t%d.id" % i}]; cfault = "v2:" + fault
+        for t in targets:
+            per_target.append("bad_query" if fault == "bad_query" else "none")
+        sql.append(blk)
+    style = rng.choice(["json", "yaml"])
+    files["sqlc.json" if style == "json" else "sqlc.yaml"] = json.dumps({"version": "2", "sql": sql}, indent=1)
+    return {"files": files, "dirs": dirs, "faults": per_target, "cfault": cfault, "v2": [[list(t), f] for t, f in blocks]}
+
 
 def snapshot(root):
     out = {}
@@ -137,6 +170,15 @@ def run(tier, seed):
             cases.append(make_case(rng, 4, [rng.choice(FAULTS + ["none"] * 4) for _ in range(4)], rng.choice(CONFIG_FAULTS)))
         for _ in range(400):
             cases.append(make_case(rng, 4, [rng.choice(FAULTS) for _ in range(4)], rng.choice(CONFIG_FAULTS)))
+    # version 2: blocks with one or two targets, a fault in the first / second target of the first / second block
+    tsets = [["go"], ["kotlin"], ["go", "kotlin"], ["kotlin", "go"]]
+    for ts in tsets:
+        cases.append(make_v2_case(rng, [(ts, "none")]))
+        cases.append(make_v2_case(rng, [(["go"], "none"), (ts, "none")]))
+        for f in V2_FAULTS:
+            cases.append(make_v2_case(rng, [(ts, f)]))
+            cases.append(make_v2_case(rng, [(["go"], "none"), (ts, f)]))
+            cases.append(make_v2_case(rng, [(ts, f), (["go", "kotlin"], "none")]))
     with ThreadPoolExecutor(max_workers=NCPU) as ex:
         results = list(ex.map(run_binary, cases))
     exprs = []
@@ -152,8 +194,10 @@ def run(tier, seed):
         for f in c["faults"]:
             rep.count("fault:" + f)
         rep.count("config:" + c["cfault"])
+        if "v2" in c:
+            rep.count("v2-blocks=%d" % len(c["v2"]))
         g, k = r["generate"], r["compile"]
-        replay = {"faults": c["faults"], "config_fault": c["cfault"], "files": c["files"], "dirs": c["dirs"], "observed": r}
+        replay = {"faults": c["faults"], "config_fault": c["cfault"], "files": c["files"], "dirs": c["dirs"], "observed": r, "v2_blocks": c.get("v2")}
         for name, o in (("generate", g), ("compile", k)):
             if o["rc"] not in (0, 1) or "panic:" in o["stderr"] or "goroutine " in o["stderr"]:
                 rep.violation("sqlc %s crashes or hangs (status %s)" % (name, o["rc"]), replay, klass="unknown_engine_panic" if "unknown engine" in o["stderr"] else None)
